@@ -1,7 +1,4 @@
-use crate::cli::utils::template::{
-    Template,
-    TemplateExt,
-};
+use crate::cli::utils::template::Template;
 use crate::error::ZervError;
 use crate::utils::constants::formats;
 use crate::version::Zerv;
@@ -25,7 +22,7 @@ impl OutputFormatter {
     ) -> Result<String, ZervError> {
         // 1. Resolve template if provided, otherwise use standard format
         let mut output = if let Some(template) = output_template {
-            template.render_string(Some(zerv_object))?
+            template.render_text(Some(zerv_object))?
         } else {
             Self::format_base_output(zerv_object, output_format)?
         };
